@@ -14,7 +14,8 @@ PREDS_C15 = ["StepBounds", "PriceReported", "FailedFeeExact", "PlainTransfer", "
 PREDS_C16 = ["FailedOnlyPayer", "OnlyPayerHash", "NoOutputOnFailure", "StatusConsistent", "FrameEffects",
              "FrameOutput", "ControlFlow"]
 
-BASE = dict(Users='{"a", "b", "c"}', Contracts='{"x", "y"}', Ghosts='{"g"}', Keys='{"k1", "k2"}',
+BASE = dict(Users='{"a", "b", "c"}', Contracts='{"x", "y", "s"}', SyncContracts='{"s"}', Hangers='{"z"}',
+            Ghosts='{"g"}', Keys='{"k1", "k2"}',
             Prices="{0, 1, 2}", MsgLen="6", CallLen="37", MidPrice="TRUE")
 
 # chain configurations: step costs of the genesis (constants of the specification) and the
@@ -69,6 +70,13 @@ def features(b):
                 f.add("nested-depth-2")
             if tx["to"] == "g":
                 f.add("to-contract-without-code")
+            if r["code"] == "timeout":
+                # where the mutations that must be rolled back were made
+                f.add("timeout:" + ("sync-frame" if tx["to"] == "s" else "direct" if tx["to"] == "z" else "async-frame"))
+                if any(o["o"] == "call" and o["a"] == "s" for o in tx["prog"]):
+                    f.add("timeout:below-nested-sync-frame")
+                if any(o["o"] == "ev" for o in tx["prog"]):
+                    f.add("timeout:after-events")
         elif s["op"] == "end":
             f.add("blocks-of-%d" % min(ntx, 3))
             ntx = 0
@@ -82,7 +90,9 @@ def features(b):
 REQUIRED = ["code:ok", "code:balance", "code:fail", "charge-loop:rollback", "charge-loop:price0",
             "ok-with-logs", "ok-with-failed-charge-inside", "failed-after-mutation", "nested-depth-2",
             "to-contract-without-code", "kind:transfer", "kind:message", "kind:call", "kind:call:failed",
-            "blocks-of-1", "blocks-of-2", "blocks-of-3", "op:price", "op:fund", "price-change-inside-block"]
+            "blocks-of-1", "blocks-of-2", "blocks-of-3", "op:price", "op:fund", "price-change-inside-block",
+            "code:timeout", "timeout:sync-frame", "timeout:async-frame", "timeout:direct",
+            "timeout:below-nested-sync-frame", "timeout:after-events"]
 
 
 def generate(ctx, chain, *, bfs, walks, wdepth, maxtx=3, par=1, users=None):
@@ -147,7 +157,7 @@ def replay_and_validate(ctx, chain, allb, preds, label):
     if not trace:
         raise ctx_error("no block was executed")
     cs = consts(chain, MaxTx=3, MaxOps=0, FundVals="{}", Users='{"a", "b", "c", "d"}')
-    for k in ("WithMsg", "MsgLen", "CallLen"):
+    for k in ("WithMsg", "MsgLen", "CallLen", "SyncContracts"):
         cs.pop(k, None)
     import vlib
     from concurrent.futures import ThreadPoolExecutor
